@@ -21,6 +21,16 @@ def is_connectable(obj: Any) -> bool:
     return getattr(obj, "__connectable__", False)
 
 
+def connected_ports(conn: "Connectable") -> list:
+    """The `PortRef`s connected to `conn`, in a process-independent order.
+    `_connected_ports` are sets of objects hashed by memory address and (string-hashed) port-name,
+    so their iteration order varies between Python processes. Anything which re-makes connections
+    while walking them must not let that order leak into its results."""
+    return sorted(
+        conn._connected_ports, key=lambda ref: (ref.inst.name or "", ref.portname)
+    )
+
+
 # Union of types using `connectable`
 # For checking, `is_connectable` is preferable, but this serves as a handy shorthand for many type annotations.
 Connectable = Union[
